@@ -8,7 +8,13 @@ use std::io::{Seek, SeekFrom, Write};
 use std::os::unix::fs::FileExt;
 use std::os::unix::io::AsRawFd;
 use std::path::{Path, PathBuf};
+#[cfg(not(loom))]
 use std::sync::{Arc, Condvar, Mutex};
+
+#[cfg(loom)]
+use loom::sync::{Condvar, Mutex};
+#[cfg(loom)]
+use std::sync::Arc;
 
 use biometrics::Counter;
 
